@@ -70,6 +70,9 @@ CLAIMED = {
  "C09": dict(text="Kernels for all inputs by MIR->z3: fill_block == RFC 9106 G with BlaMka (3 x 1 KiB symbolic), index_alpha == RFC 9106 3.4.1.2 for every 32-bit J1 over all position classes of small segments; drivers by Kani/CBMC: H' chain structure for literal output lengths, "
                   "crypto_pwhash range validation and untruncated cost forwarding for symbolic (opslimit, memlimit), PwHash::verify. The argon2_hash block schedule as a whole is NOT claimed (see evidence: outside_the_claim).",
              ref="DESIGN.md 5/C09", technique="MIR->SMT symbolic execution (z3 bit-vectors) for the Argon2 kernels + Kani->CBMC bounded model checking with BLAKE2b-compress / Argon2 stubs for the drivers", engine="e2-mir-smt + e1-kani-cbmc"),
+ "C10": dict(text="PARTIAL claim. The text layer (format!/base64 encoder, parser) does not finish symbolic execution even on literal inputs and is not decided. With the parser replaced by a contract stub returning an arbitrary complete record: "
+                  "needs-rehash is false exactly when both costs match (symbolic on both sides); string verification runs Argon2 with exactly the parsed costs / salt / algorithm, asks for the decoded hash's length and accepts exactly on equality over that whole length.",
+             ref="DESIGN.md 5/C10, 9.6", technique="Kani->CBMC bounded model checking with parser and Argon2 contract stubs; native replay against libsodium's crypto_pwhash_str_verify"),
 }
 NA = {
  "C18": "Backends in question are assembly (sha2/asm), run-time-selected vendor intrinsics (dalek AVX2) and std::simd; none has a MIR/GOTO encoding Kani accepts and the two BLAKE2b compress variants are mutually exclusive cfg alternatives; see DESIGN.md section 6.",
